@@ -61,7 +61,8 @@ class AnySpecifier(BaseSpecifier):
         return ""
 
     def __hash__(self) -> int:
-        return hash(str(self))
+        # Must agree with the universal RangeSpecifier(), which compares equal to this.
+        return hash((None, None, False, False))
 
     def __eq__(self, other: object) -> bool:
         if not isinstance(other, BaseSpecifier):
